@@ -102,13 +102,13 @@ CLAIMS = {
         "every column support is a path. Tie: CMRgraphicTestMatrix/Transpose on every 0/1 matrix up to 4x4 and on random/graph-generated "
         "instances up to 120 edges; every yes is decided by the returned certificate, every no (rows<=5) by the search. Completeness of the "
         "search oracle w.r.t. the declarative notion is not proved (a 'no' of the oracle against a 'yes' with valid certificate is decided by the certificate). Completeness of the brute-force oracle is proved (C05Complete.lean: whenever some graph with a spanning forest has M as its "
-        "fundamental-cycle matrix - any number of components, isolated nodes, loops, parallel edges - isGraphic M = true), so a 'no' of the oracle is trustworthy; every matrix accepted by the certificate checker is accepted by the oracle.",
+        "fundamental-cycle matrix - any number of components, isolated nodes, loops, parallel edges - isGraphic M = true), so a 'no' of the oracle is trustworthy; every matrix accepted by the certificate checker is accepted by the oracle. Graphic matrices are regular (C05Regular.lean, from the network-matrix theorem of C06TU.lean): an oracle yes or an accepted certificate implies a TU signing exists.",
    technique="Lean 4 soundness/completeness of the graph-certificate checker + certificate validation of every yes, exhaustive small-domain oracle for no", design="5/C05"),
  "C06": dict(
    text="Proof: as C05 for signed=true: an accepted certificate means M[i][j] = +1/-1/0 according to forward/backward/absent traversal of "
         "tree arc i (after arc reversals) on the tree walk of coforest arc j; network search soundness. Tie: CMRnetworkTestMatrix/Transpose on "
         "every {-1,0,1} matrix up to 3x3, random signings, digraph instances with reversals and sign corruptions; support-graphicness flag "
-        "and returned violators are checked against the oracles. Completeness of the network oracle (C06Complete.lean, proofs shared with C05Complete): a 'no' of isNetwork means no digraph with a spanning forest realises M.",
+        "and returned violators are checked against the oracles. Completeness of the network oracle (C06Complete.lean, proofs shared with C05Complete): a 'no' of isNetwork means no digraph with a spanning forest realises M. Network matrices are totally unimodular (C06TU.lean: node-arc incidence matrices are TU, B_T M = B_coT by telescoping along tree walks, a left inverse of B_T in bridge forests and an unsorted Cauchy-Binet argument): every yes of the network oracle and every accepted digraph certificate implies isTU, in Mathlib's sense.",
    technique="Lean 4 certificate-checker theorems (signed) + certificate validation / small-domain oracle", design="5/C06"),
  "C14": dict(
    text="Proof: cycleMatrix has the documented shape (rows in forest order, columns in coforest order) and entries (walk characterisation), its "
